@@ -646,6 +646,16 @@ func ForwardedFieldStore(ld *ssa.UnOp, fa *ssa.FieldAddr) ssa.Value {
 					return x.Val
 				}
 			}
+			// the whole struct was just stored, and it came from a constructor function of the module
+			// (f := errorFrame(err); s.last = &f; … s.last.err): the field is what the constructor puts there
+			if x.Addr == base {
+				if call, isCall := x.Val.(*ssa.Call); isCall {
+					if fv := CtorFieldValue(call, fa.Field); fv != nil {
+						return fv
+					}
+				}
+				return nil
+			}
 		case *ssa.Call:
 			if !InfoOf(&x.Call).Builtin {
 				return nil
@@ -751,4 +761,59 @@ func HelperCallsOf(fn *ssa.Function) []HelperCall {
 		out = append(out, hc)
 	})
 	return out
+}
+
+// CtorFieldValue: call is a static call of a module function with a single
+// struct-typed result that every return builds as a composite literal; returns
+// the value stored into field index fld (a parameter is replaced by the call's
+// argument), or nil if unknown / not uniform.
+func CtorFieldValue(call *ssa.Call, fld int) ssa.Value {
+	fn := call.Call.StaticCallee()
+	if fn == nil || fn.Blocks == nil || fn.Pkg == nil || !strings.HasPrefix(fn.Pkg.Pkg.Path(), ModulePath) || fn.Signature.Results().Len() != 1 {
+		return nil
+	}
+	if _, isStruct := fn.Signature.Results().At(0).Type().Underlying().(*types.Struct); !isStruct {
+		return nil
+	}
+	var res ssa.Value
+	for _, b := range fn.Blocks {
+		for _, in := range b.Instrs {
+			r, ok := in.(*ssa.Return)
+			if !ok {
+				continue
+			}
+			ld, ok := r.Results[0].(*ssa.UnOp)
+			if !ok || ld.Op != token.MUL {
+				return nil
+			}
+			al, ok := ld.X.(*ssa.Alloc)
+			if !ok {
+				return nil
+			}
+			var fv ssa.Value
+			for _, ref := range *al.Referrers() {
+				fa, ok := ref.(*ssa.FieldAddr)
+				if !ok || fa.Field != fld {
+					continue
+				}
+				for _, rr := range *fa.Referrers() {
+					if st, ok := rr.(*ssa.Store); ok {
+						fv = st.Val
+					}
+				}
+			}
+			if fv == nil || (res != nil && res != fv) {
+				return nil
+			}
+			res = fv
+		}
+	}
+	if par, ok := res.(*ssa.Parameter); ok {
+		for i, pp := range fn.Params {
+			if pp == par && i < len(call.Call.Args) {
+				return call.Call.Args[i]
+			}
+		}
+	}
+	return res
 }
